@@ -14,6 +14,7 @@ use camharness::*;
 use cameleon_genapi::formula::{self, BinOpKind, EvaluationResult, Expr, UnOpKind};
 use cameleon_genapi::builder::GenApiBuilder;
 use cameleon_genapi::store::{DefaultNodeStore, NodeData};
+use cameleon_genapi::interface::{IFloat, IInteger};
 use cameleon_genapi::{GenApiError, NodeStore};
 use std::collections::HashMap;
 
@@ -498,6 +499,8 @@ enum V {
 enum RErr {
     UnknownIdent,
     RemByZero,
+    /// an expression binding that refers to itself
+    Cyclic,
 }
 impl V {
     fn f(self) -> f64 {
@@ -561,25 +564,46 @@ fn fsgn(f: f64) -> f64 {
 type Env = Vec<(String, V)>;
 
 fn ref_eval(t: &T, env: &Env) -> Result<V, RErr> {
+    ref_eval_x(t, env, &[], &mut vec![])
+}
+
+fn ref_eval_x(t: &T, env: &Env, xenv: &[(String, String)], vis: &mut Vec<String>) -> Result<V, RErr> {
     let b = |x: bool| V::I(x as i64);
     Ok(match t {
         T::Int(s) => V::I(int_lit_value(s)),
         T::Float(s) => V::F(s.parse().unwrap()),
         T::Const("PI") => V::F(std::f64::consts::PI),
         T::Const(_) => V::F(std::f64::consts::E),
-        T::Ident(s) => env.iter().find(|e| &e.0 == s).map(|e| e.1).ok_or(RErr::UnknownIdent)?,
-        T::If(c, x, y) => {
-            if ref_eval(c, env)?.truthy() {
-                ref_eval(x, env)?
+        T::Ident(s) => {
+            // a name bound to a text (an <Expression> element) is that text evaluated in the SAME
+            // environment (dynamic scope); meeting it again while it is being evaluated is an error
+            if vis.contains(s) {
+                return Err(RErr::Cyclic);
+            }
+            if let Some(e) = env.iter().find(|e| &e.0 == s) {
+                e.1
+            } else if let Some(x) = xenv.iter().find(|x| &x.0 == s) {
+                let bound = ref_parse(&x.1).map_err(|_| RErr::UnknownIdent)?;
+                vis.push(s.clone());
+                let r = ref_eval_x(&bound, env, xenv, vis);
+                vis.pop();
+                r?
             } else {
-                ref_eval(y, env)?
+                return Err(RErr::UnknownIdent);
             }
         }
-        T::Bin(B::And, l, r) => b(ref_eval(l, env)?.truthy() && ref_eval(r, env)?.truthy()),
-        T::Bin(B::Or, l, r) => b(ref_eval(l, env)?.truthy() || ref_eval(r, env)?.truthy()),
+        T::If(c, x, y) => {
+            if ref_eval_x(c, env, xenv, vis)?.truthy() {
+                ref_eval_x(x, env, xenv, vis)?
+            } else {
+                ref_eval_x(y, env, xenv, vis)?
+            }
+        }
+        T::Bin(B::And, l, r) => b(ref_eval_x(l, env, xenv, vis)?.truthy() && ref_eval_x(r, env, xenv, vis)?.truthy()),
+        T::Bin(B::Or, l, r) => b(ref_eval_x(l, env, xenv, vis)?.truthy() || ref_eval_x(r, env, xenv, vis)?.truthy()),
         T::Bin(op, l, r) => {
-            let x = ref_eval(l, env)?;
-            let y = ref_eval(r, env)?;
+            let x = ref_eval_x(l, env, xenv, vis)?;
+            let y = ref_eval_x(r, env, xenv, vis)?;
             let ints = match (x, y) {
                 (V::I(a), V::I(c)) => Some((a as i128, c as i128)),
                 _ => None,
@@ -613,7 +637,7 @@ fn ref_eval(t: &T, env: &Env) -> Result<V, RErr> {
             }
         }
         T::Un(op, _, a) => {
-            let x = ref_eval(a, env)?;
+            let x = ref_eval_x(a, env, xenv, vis)?;
             match op {
                 U::Not => V::I(wrap(-(x.i() as i128) - 1)),
                 U::Abs => match x {
@@ -651,7 +675,7 @@ fn show_ref(r: &Result<V, RErr>) -> String {
     match r {
         Ok(V::I(i)) => format!("ok:i{i}"),
         Ok(V::F(f)) => format!("ok:f{}", fbits(*f)),
-        Err(RErr::UnknownIdent) => "err:InvalidNode".into(),
+        Err(RErr::UnknownIdent) | Err(RErr::Cyclic) => "err:InvalidNode".into(),
         Err(RErr::RemByZero) => "err:InvalidData".into(),
     }
 }
@@ -739,7 +763,32 @@ fn close(a: &str, b: &str, ulps: u64) -> bool {
 // Generators
 // ---------------------------------------------------------------------------------------
 
-const VAR_NAMES: [&str; 8] = ["X", "Y", "VAR1", "Foo1.Max", "a_b", "LN", "E1", "PIX"];
+const VAR_NAMES: [&str; 24] = [
+    "X", "Y", "VAR1", "Foo1.Max", "a_b", "LN", "E1", "PIX", "A1.B2", "Reg0.Max1", "x", "SINX", "ABSVAL", "EXPOSURE",
+    "ROUNDED", "E.x", "PI.Value", "TRUNC8", "Gain_Raw.Value.Min", "ThisIsAVeryLongFeatureNameWithDigits0123456789AndMore.Inc",
+    "COS.Min", "N", "e", "pi",
+];
+
+fn idents_of(t: &T, out: &mut Vec<String>) {
+    match t {
+        T::Bin(_, l, r) => {
+            idents_of(l, out);
+            idents_of(r, out);
+        }
+        T::Un(_, _, x) => idents_of(x, out),
+        T::If(c, a, b) => {
+            idents_of(c, out);
+            idents_of(a, out);
+            idents_of(b, out);
+        }
+        T::Ident(s) => {
+            if !out.contains(s) {
+                out.push(s.clone())
+            }
+        }
+        _ => {}
+    }
+}
 const INT_LITS: [&str; 30] = [
     "0X1F", "0xFFFFFFFFFFFFFFFF", "0x8000000000000000", "0XdeadBEEF00000000", "0xffffffff00000000",
     "0x00000000000000000001", "0X0", "0x8000000000000001",
@@ -838,15 +887,21 @@ fn gen_value(rng: &mut Rng, fv: &[f64]) -> V {
     }
 }
 
-fn gen_env(rng: &mut Rng, fv: &[f64]) -> Env {
+fn gen_env(rng: &mut Rng, fv: &[f64], names: &[String]) -> Env {
     // a variable is unbound with probability 1/8 (unknown identifier → error / short circuit)
     let mut env: Env = vec![];
-    for n in VAR_NAMES {
+    for n in names {
         if !rng.chance(1, 8) {
-            env.push((n.to_string(), gen_value(rng, fv)));
+            env.push((n.clone(), gen_value(rng, fv)));
         }
     }
     env
+}
+
+fn env_for(rng: &mut Rng, fv: &[f64], t: &T) -> Env {
+    let mut names = vec![];
+    idents_of(t, &mut names);
+    gen_env(rng, fv, &names)
 }
 
 // ---------------------------------------------------------------------------------------
@@ -919,14 +974,14 @@ fn classify(v: V) -> &'static str {
 }
 
 /// Smallest sub-tree on which implementation and reference still differ; gives the signature.
-fn shrink_eval(t: &T, env: &Env) -> (T, Value) {
+fn shrink_eval(t: &T, env: &Env, xenv: &[(String, String)]) -> (T, Value) {
     let differs = |t: &T| {
         let mut out = vec![];
         let mut r = Rng::new(0);
         render(t, 0, Paren::Full, &mut r, &mut out);
         let src = out.join(" ");
-        let got = run_impl(&src, &env_impl(env, &[])).map(|x| x.1).unwrap_or("parse-panic".into());
-        let want = show_ref(&ref_eval(t, env));
+        let got = run_impl(&src, &env_impl(env, xenv)).map(|x| x.1).unwrap_or("parse-panic".into());
+        let want = show_ref(&ref_eval_x(t, env, xenv, &mut vec![]));
         got != want && !(uses_libm(t) && close(&got, &want, 4))
     };
     let mut cur = t.clone();
@@ -942,7 +997,7 @@ fn shrink_eval(t: &T, env: &Env) -> (T, Value) {
             None => break,
         }
     }
-    let cls = |x: &T| ref_eval(x, env).map(classify).unwrap_or("error");
+    let cls = |x: &T| ref_eval_x(x, env, xenv, &mut vec![]).map(classify).unwrap_or("error");
     let sig = match &cur {
         T::Bin(op, l, r) => json!({"kind": "eval", "op": format!("{op:?}"), "lhs": cls(l), "rhs": cls(r)}),
         T::Un(op, _, x) => json!({"kind": "eval", "op": format!("{op:?}"), "arg": cls(x)}),
@@ -954,12 +1009,18 @@ fn shrink_eval(t: &T, env: &Env) -> (T, Value) {
 
 /// A well-formed formula: parse oracle + evaluation oracle + model differential.
 fn do_case(cx: &mut Ctx, t: &T, src: &str, env: &Env, tag: &str) {
-    let imp = run_impl(src, &env_impl(env, &[]));
+    do_case_x(cx, t, src, env, &[], tag)
+}
+
+/// A well-formed formula, evaluated in an environment of literal bindings `env` and of
+/// sub-formula bindings `xenv` (<Expression> elements).
+fn do_case_x(cx: &mut Ctx, t: &T, src: &str, env: &Env, xenv: &[(String, String)], tag: &str) {
+    let imp = run_impl(src, &env_impl(env, xenv));
     let want_dump = dump_t(t);
-    let want_eval = ref_eval(t, env);
+    let want_eval = ref_eval_x(t, env, xenv, &mut vec![]);
     let want_eval_s = show_ref(&want_eval);
-    let libm = uses_libm(t);
-    cx.rep.case(&format!("{src}|{}", env_wire(env, &[])), depth(t) >= 1 && want_eval.is_ok());
+    let libm = uses_libm(t) || xenv.iter().any(|x| ref_parse(&x.1).map_or(true, |b| uses_libm(&b)));
+    cx.rep.case(&format!("{src}|{}", env_wire(env, xenv)), depth(t) >= 1 && want_eval.is_ok());
     cx.rep.count(&format!("src/{tag}"));
     cx.rep.count(&format!("depth/{}", depth(t)));
     cx.rep.count(&format!("ref-result/{}", match &want_eval {
@@ -967,9 +1028,10 @@ fn do_case(cx: &mut Ctx, t: &T, src: &str, env: &Env, tag: &str) {
         Ok(V::F(f)) if f.is_nan() => "float-nan",
         Ok(V::F(_)) => "float",
         Err(RErr::UnknownIdent) => "err-unknown-ident",
+        Err(RErr::Cyclic) => "err-cyclic-expression",
         Err(RErr::RemByZero) => "err-rem-by-zero",
     }));
-    let replay = json!({"formula": src, "env": env_wire(env, &[])});
+    let replay = json!({"formula": src, "env": env_wire(env, xenv)});
     // the independent reference parser must read the rendering back as the generated tree
     match ref_parse(src) {
         Ok(rt) if dump_t(&rt) == want_dump => {}
@@ -986,23 +1048,23 @@ fn do_case(cx: &mut Ctx, t: &T, src: &str, env: &Env, tag: &str) {
                 cx.rep.violation(json!({"kind": "parse-tree"}),
                     &format!("{src:?} parsed as {d}, the standard's precedence gives {want_dump}"), replay.clone());
             } else if *v != want_eval_s && !(libm && close(v, &want_eval_s, 4)) {
-                let (small, sig) = shrink_eval(t, env);
+                let (small, sig) = shrink_eval(t, env, xenv);
                 let kind = if v == "panic" { "eval panics" } else { "eval differs from the reference evaluator" };
                 cx.rep.violation(sig, &format!("{kind}: {src:?} gives {v}, reference {want_eval_s}; minimal sub-expression {}", dump_t(&small)), replay.clone());
             }
         }
     }
-    let req = format!("c05 run {} {} {}", profile(), hex(src.as_bytes()), env_wire(env, &[]));
+    let req = format!("c05 run {} {} {}", profile(), hex(src.as_bytes()), env_wire(env, xenv));
     let ans = impl_answer(&imp);
     if cx.rep.evaluations % 4001 == 1 {
-        cx.rep.sample(json!({"formula": src, "env": env_wire(env, &[]), "impl": ans, "reference": format!("{want_dump} {want_eval_s}")}));
+        cx.rep.sample(json!({"formula": src, "env": env_wire(env, xenv), "impl": ans, "reference": format!("{want_dump} {want_eval_s}")}));
     }
     cx.pending.push((req, ans, libm));
     // the Lean reference evaluator (Spec.Formula.eval, the right-hand side of eval_refines_spec)
     // against this harness' reference evaluator: two independent transcriptions of the semantics
-    if cx.rep.evaluations % 3 == 0 && imp.as_ref().map_or(false, |x| x.0 == want_dump) {
+    if xenv.is_empty() && cx.rep.evaluations % 3 == 0 && imp.as_ref().map_or(false, |x| x.0 == want_dump) {
         cx.rep.count("spec-evaluator-cross-check");
-        cx.pending.push((format!("c05 spec {} {}", hex(src.as_bytes()), env_wire(env, &[])), want_eval_s.clone(), libm));
+        cx.pending.push((format!("c05 spec {} {}", hex(src.as_bytes()), env_wire(env, xenv)), want_eval_s.clone(), libm));
     }
     if cx.pending.len() >= 20_000 {
         cx.flush();
@@ -1021,7 +1083,8 @@ fn do_raw(cx: &mut Ctx, src: &str, env: &Env, xenv: &[(String, String)], tag: &s
         return;
     }
     let imp = run_impl(src, &ienv);
-    cx.rep.case(&format!("{src}|{}", env_wire(env, xenv)), imp.is_some());
+    // malformed text is never a non-trivial case of the property (rule: well-formed tree with an operator)
+    cx.rep.case(&format!("{src}|{}", env_wire(env, xenv)), false);
     cx.rep.count(&format!("src/{tag}"));
     cx.rep.count(if imp.is_some() { "raw:parsed" } else { "raw:parse-panic" });
     if let Some((d, v)) = &imp {
@@ -1062,34 +1125,149 @@ fn do_any(cx: &mut Ctx, src: &str, env: &Env, tag: &str) {
     }
 }
 
-/// End-to-end through the XML loader: the formula text is XML-escaped into a `<Formula>`
-/// element of a SwissKnife, the description is built with the real `GenApiBuilder`, and the tree
-/// the node holds must be the generated tree (the loader hands entity-decoded text to the lexer,
-/// which decodes entities once more).
-fn do_xml(cx: &mut Ctx, t: &T, src: &str) {
-    let esc = src.replace('&', "&amp;").replace('<', "&lt;").replace('>', "&gt;");
-    let xml = format!(
-        "<RegisterDescription ModelName=\"M\" VendorName=\"V\" StandardNameSpace=\"None\" SchemaMajorVersion=\"1\" SchemaMinorVersion=\"1\" SchemaSubMinorVersion=\"0\" MajorVersion=\"1\" MinorVersion=\"0\" SubMinorVersion=\"0\" ProductGuid=\"a\" VersionGuid=\"b\">\n<SwissKnife Name=\"F\"><Formula>{esc}</Formula></SwissKnife>\n</RegisterDescription>"
-    );
-    cx.rep.count("xml-path");
+struct NoDevice;
+impl cameleon_genapi::Device for NoDevice {
+    fn read_mem(&mut self, _: i64, _: &mut [u8]) -> Result<(), Box<dyn std::error::Error + Send + Sync>> {
+        Err("the formula stream has no device".into())
+    }
+    fn write_mem(&mut self, _: i64, _: &[u8]) -> Result<(), Box<dyn std::error::Error + Send + Sync>> {
+        Err("the formula stream has no device".into())
+    }
+}
+
+/// The token list as XML character data: operators escaped, random XML-safe gaps, now and then
+/// a comment between two tokens or a token inside a CDATA section.
+fn xml_text(toks: &[String], rng: &mut Rng, decorate: bool) -> String {
+    const GAPS: [&str; 5] = ["", " ", "\t", "\n", "\r\n"];
+    let mut s = String::new();
+    for t in toks {
+        s.push_str(*rng.pick(&GAPS));
+        if decorate && rng.chance(1, 12) {
+            s.push_str("<!-- a comment -->");
+        }
+        if decorate && rng.chance(1, 12) {
+            s.push_str(&format!("<![CDATA[{t}]]>"));
+        } else {
+            s.push_str(&t.replace('&', "&amp;").replace('<', "&lt;").replace('>', "&gt;"));
+        }
+    }
+    s.push_str(*rng.pick(&GAPS));
+    s
+}
+
+const XML_HEAD: &str = "<RegisterDescription ModelName=\"M\" VendorName=\"V\" StandardNameSpace=\"None\" SchemaMajorVersion=\"1\" SchemaMinorVersion=\"1\" SchemaSubMinorVersion=\"0\" MajorVersion=\"1\" MinorVersion=\"0\" SubMinorVersion=\"0\" ProductGuid=\"a\" VersionGuid=\"b\">\n";
+
+/// End-to-end through the XML loader and the node implementations: the formula is written into
+/// a `<SwissKnife>`, `<IntSwissKnife>` (with `<Constant>` and `<Expression>` children) or
+/// `<Converter>` element, the description is built with the real `GenApiBuilder`, the tree the
+/// node holds must be the generated tree and the node's value the reference evaluation (the
+/// loader hands entity-decoded text to the lexer, which decodes entities once more).
+fn do_xml(cx: &mut Ctx, rng: &mut Rng, t: &T, kind: u64, decorate: bool) {
+    let mut toks = vec![];
+    render(t, 0, Paren::Random, rng, &mut toks);
+    let plain = toks.join(" ");
+    let int = kind == 1;
+    // bindings: every identifier of the tree is a constant, an expression over the constants, or unbound
+    let mut names = vec![];
+    idents_of(t, &mut names);
+    let mut env: Env = vec![];
+    let mut xenv: Vec<(String, String)> = vec![];
+    let mut decl = String::new();
+    let mut decl_x = String::new();
+    for n in &names {
+        match rng.below(4) {
+            0 | 1 => {
+                let v = if int { V::I(rng.interesting_i64()) } else { V::F((rng.below(4001) as f64 - 2000.0) / 16.0) };
+                let txt = match v {
+                    V::I(i) => format!("{i}"),
+                    V::F(f) => format!("{f:?}"),
+                };
+                decl.push_str(&format!("<Constant Name=\"{n}\">{txt}</Constant>"));
+                env.push((n.clone(), v));
+            }
+            2 => {
+                let mut et = vec![];
+                let sub = T::Bin(*rng.pick(&ALL_B), Box::new(gen_leaf(rng)), Box::new(gen_leaf(rng)));
+                // the sub-formula may use constants declared so far and literals only
+                let sub = match &sub {
+                    T::Bin(op, l, r) => {
+                        let fix = |x: &T, rng: &mut Rng, env: &Env| match x {
+                            T::Ident(_) if env.is_empty() => T::Int("3".into()),
+                            T::Ident(_) => T::Ident(env[rng.below(env.len() as u64) as usize].0.clone()),
+                            o => o.clone(),
+                        };
+                        T::Bin(*op, Box::new(fix(l, rng, &env)), Box::new(fix(r, rng, &env)))
+                    }
+                    o => o.clone(),
+                };
+                render(&sub, 0, Paren::Min, rng, &mut et);
+                decl_x.push_str(&format!("<Expression Name=\"{n}\">{}</Expression>", xml_text(&et, rng, false)));
+                xenv.push((n.clone(), et.join(" ")));
+            }
+            _ => {}
+        }
+    }
+    decl.push_str(&decl_x);
+    let body = xml_text(&toks, rng, decorate);
+    let xml = match kind {
+        0 => format!("{XML_HEAD}<SwissKnife Name=\"F\">{decl}<Formula>{body}</Formula></SwissKnife>\n</RegisterDescription>"),
+        1 => format!("{XML_HEAD}<IntSwissKnife Name=\"F\">{decl}<Formula>{body}</Formula></IntSwissKnife>\n</RegisterDescription>"),
+        _ => format!("{XML_HEAD}<Float Name=\"V\"><Value>1.0</Value></Float>\n<Converter Name=\"F\">{decl}<FormulaTo>{body}</FormulaTo><FormulaFrom>{body}</FormulaFrom><pValue>V</pValue></Converter>\n</RegisterDescription>"),
+    };
+    let kind_name = ["SwissKnife", "IntSwissKnife", "Converter"][kind.min(2) as usize];
+    cx.rep.count(&format!("xml-path/{kind_name}{}", if decorate { "+comment/CDATA" } else { "" }));
+    let want_tree = dump_t(t);
+    let want_val = ref_eval_x(t, &env, &xenv, &mut vec![]);
+    let want_val_s = match (&want_val, kind) {
+        (_, 2) => "-".to_string(),
+        (Ok(v), 0) => format!("ok:f{}", fbits(v.f())),
+        (Ok(v), _) => format!("ok:i{}", v.i()),
+        (Err(RErr::RemByZero), _) => "err:InvalidData".into(),
+        (Err(_), _) => "err:InvalidNode".into(),
+    };
     let got = catch(|| {
-        let (_, store, _) = GenApiBuilder::<DefaultNodeStore>::default().no_cache().build(&xml).map_err(|e| e.to_string())?;
+        let (_, store, mut vcx) = GenApiBuilder::<DefaultNodeStore>::default().no_cache().build(&xml).map_err(|e| e.to_string())?;
         let id = store.id_by_name("F").ok_or("node F not found")?;
+        let mut dev = NoDevice;
         match store.node_opt(id) {
-            Some(NodeData::SwissKnife(n)) => Ok(dump_expr(n.formula().expr())),
-            _ => Err("F is not a SwissKnife".to_string()),
+            Some(NodeData::SwissKnife(n)) => {
+                let v = match id.as_ifloat_kind(&store).ok_or("not a float kind")?.value(&mut dev, &store, &mut vcx) {
+                    Ok(f) => format!("ok:f{}", fbits(f)),
+                    Err(e) => format!("err:{}", err_name(&e)),
+                };
+                Ok((dump_expr(n.formula().expr()), v))
+            }
+            Some(NodeData::IntSwissKnife(n)) => {
+                let v = match id.as_iinteger_kind(&store).ok_or("not an integer kind")?.value(&mut dev, &store, &mut vcx) {
+                    Ok(i) => format!("ok:i{i}"),
+                    Err(e) => format!("err:{}", err_name(&e)),
+                };
+                Ok((dump_expr(n.formula().expr()), v))
+            }
+            Some(NodeData::Converter(n)) => {
+                let (a, b) = (dump_expr(n.formula_to().expr()), dump_expr(n.formula_from().expr()));
+                if a != b {
+                    return Err(format!("FormulaTo {a} differs from FormulaFrom {b}"));
+                }
+                Ok((a, "-".to_string()))
+            }
+            _ => Err("F has an unexpected kind".to_string()),
         }
     });
-    let want = dump_t(t);
     let got_s = match got {
         Err(()) => "panic".to_string(),
         Ok(Err(e)) => format!("error {e}"),
-        Ok(Ok(d)) => d,
+        Ok(Ok((d, v))) => format!("{d} {v}"),
     };
-    cx.rep.case(&format!("xml|{src}"), true);
-    if got_s != want {
-        cx.rep.violation(json!({"kind": "xml-path"}),
-            &format!("formula {src:?} loaded from XML holds {got_s}, expected {want}"), json!({"formula": src, "env": "-", "xml": true}));
+    let want = format!("{want_tree} {want_val_s}");
+    cx.rep.case(&format!("xml|{kind}|{xml}"), depth(t) >= 1 && (kind == 2 || want_val.is_ok()));
+    let agree = got_s == want
+        || (uses_libm(t) || xenv.iter().any(|x| x.1.contains("**")))
+            && matches!((got_s.rsplit_once(' '), want.rsplit_once(' ')), (Some((d1, v1)), Some((d2, v2))) if d1 == d2 && close(v1, v2, 4));
+    if !agree {
+        cx.rep.violation(json!({"kind": "xml-path", "element": kind_name}),
+            &format!("{kind_name} with formula {plain:?} (constants {}, expressions {xenv:?}) loaded from XML gives {got_s}, expected {want}", env_wire(&env, &[])),
+            json!({"formula": plain, "env": env_wire(&env, &xenv), "xml": xml}));
     }
 }
 
@@ -1122,11 +1300,26 @@ fn id(s: &str) -> Box<T> {
     Box::new(T::Ident(s.into()))
 }
 
+/// `<Expression Name="A">A+1</Expression>`: evaluated in a CHILD process first, because unbounded
+/// recursion ends in a stack overflow that aborts the process (not a catchable panic).
+fn probe_cyclic_child() -> ! {
+    let mut env: HashMap<String, Expr> = HashMap::new();
+    env.insert("A".into(), formula::parse("A+1"));
+    env.insert("B".into(), formula::parse("C * 2"));
+    env.insert("C".into(), formula::parse("1 ? B : 0"));
+    let ok = |src: &str, env: &HashMap<String, Expr>| matches!(formula::parse(src).eval(env), Err(GenApiError::InvalidNode(_)));
+    let good = ok("A", &env) && ok("B + 1", &env) && matches!(formula::parse("0 && A").eval(&env), Ok(EvaluationResult::Integer(0)));
+    std::process::exit(if good { 0 } else { 3 })
+}
+
 fn main() {
+    if std::env::args().any(|a| a == "--probe-cyclic") {
+        probe_cyclic_child();
+    }
     let args = parse_args();
     let rep = Report::new(
         "C05",
-        "expression trees (all 19 binary and 18 unary operators/functions, ternary, constants, decimal/hex/float literal forms, variables) to depth 6, each rendered with minimal/full/random parentheses, whitespace and XML-entity variants, evaluated under environments from boundary sets; a case is non-trivial when the tree has at least one operator and the reference evaluation is not an error; distinct by (formula text, environment)",
+        "expression trees (all 19 binary and 18 unary operators/functions, ternary, constants, decimal/hex/float literal forms, variables) to depth 6, each rendered with minimal/full/random parentheses, whitespace and XML-entity variants, evaluated under environments from boundary sets; a case is non-trivial when it is a well-formed formula whose tree has at least one operator and whose reference evaluation is not an error (malformed texts are never counted; XML cases: same rule, Converter cases by the tree alone); distinct by (formula text, environment) resp. the XML document",
     );
     let mut cx = Ctx { rep, pending: vec![], camdrv: args.camdrv.clone() };
     let mut rng = Rng::new(args.seed);
@@ -1146,7 +1339,10 @@ fn main() {
             }
         }
         match ref_parse(src) {
-            Ok(t) if r["xml"] == true => do_xml(&mut cx, &t, src),
+            Ok(t) if r["xml"].is_string() => {
+                cx.rep.count("replay/xml-case-as-plain-formula");
+                do_case(&mut cx, &t, src, &env, "replay")
+            }
             Ok(t) => do_case(&mut cx, &t, src, &env, "replay"),
             Err(_) => {
                 // not well-formed for the reference grammar: a recorded syntax probe
@@ -1158,6 +1354,27 @@ fn main() {
         cx.rep.write(&args);
         return;
     }
+
+    // ---- 0a. self-referring expression bindings, out of process ---------------------------
+    let cyclic_safe = {
+        let st = std::process::Command::new(std::env::current_exe().unwrap()).arg("--probe-cyclic")
+            .stdout(std::process::Stdio::null()).stderr(std::process::Stdio::null()).status();
+        cx.rep.count("probe/cyclic-expression(child process)");
+        match st {
+            Ok(s) if s.success() => true,
+            other => {
+                let how = match &other {
+                    Ok(s) if s.code() == Some(3) => "does not return the error InvalidNode".to_string(),
+                    Ok(s) => format!("kills the process ({s})"),
+                    Err(e) => format!("child could not be started: {e}"),
+                };
+                cx.rep.violation(json!({"kind": "cyclic-expression"}),
+                    &format!("evaluating `A` with <Expression Name=\"A\">A+1</Expression> {how}"),
+                    json!({"formula": "A", "env": format!("A=x:{}", hex(b"A+1")), "child_process": true}));
+                false
+            }
+        }
+    };
 
     // ---- 0. corpus of past failures ----------------------------------------------------
     if let Ok(rd) = std::fs::read_dir("/verif/corpus/C05") {
@@ -1231,7 +1448,7 @@ fn main() {
         for x in &vals {
             for y in &vals {
                 k += 1;
-                if k % stride != 0 {
+                if (k + args.seed as usize) % stride != 0 {
                     continue;
                 }
                 let env: Env = vec![("X".into(), *x), ("Y".into(), *y)];
@@ -1282,38 +1499,52 @@ fn main() {
     for i in 0..n_trees {
         let d = 1 + (i % 6);
         let t = gen_tree(&mut rng, d);
-        let env = gen_env(&mut rng, &fv);
+        let env = env_for(&mut rng, &fv, &t);
         render_variants(&mut cx, &mut rng, &t, &env, "random-tree", i % 8 == 0);
-        if i % 10 == 0 {
-            let mut toks = vec![];
-            render(&t, 0, Paren::Random, &mut rng, &mut toks);
-            let src = join(&toks, Ws::Xml, Ent::Never, &mut rng);
-            do_xml(&mut cx, &t, &src);
+        if i % 5 == 0 {
+            do_xml(&mut cx, &mut rng, &t, (i / 5 % 3) as u64, i % 10 == 0);
         }
         if i % 3 == 0 {
-            let env2 = gen_env(&mut rng, &fv);
+            let env2 = env_for(&mut rng, &fv, &t);
             render_variants(&mut cx, &mut rng, &t, &env2, "random-tree", false);
         }
     }
 
     // ---- 5. environments that bind identifiers to expressions (<Expression> elements) -----
-    for _ in 0..(n_trees / 20) {
-        let env = gen_env(&mut rng, &fv);
-        // EX1 refers to variables only, EX2 may refer to EX1: acyclic by construction
-        let e1 = gen_tree(&mut rng, 2);
+    let sub = |rng: &mut Rng, d: usize| -> String {
         let mut toks = vec![];
-        render(&e1, 0, Paren::Min, &mut rng, &mut toks);
-        let e1s = toks.join(" ");
-        let e2s = format!("EX1 + ({})", {
-            let mut toks = vec![];
-            render(&gen_tree(&mut rng, 2), 0, Paren::Min, &mut rng, &mut toks);
-            toks.join(" ")
-        });
-        let xenv = vec![("EX1".to_string(), e1s), ("EX2".to_string(), e2s)];
-        let main_t = T::Bin(*rng.pick(&ALL_B), id("EX2"), Box::new(gen_tree(&mut rng, 2)));
+        render(&gen_tree(rng, d), 0, Paren::Min, rng, &mut toks);
+        toks.join(" ")
+    };
+    for i in 0..(n_trees / 10) {
+        // EX1 refers to variables only, EX2 refers to EX1 (and variables), EX3 to EX2 and EX1
+        let mut xenv = vec![
+            ("EX1".to_string(), sub(&mut rng, 2)),
+            ("EX2".to_string(), format!("EX1 {} ({})", b_sym(*rng.pick(&ALL_B)), sub(&mut rng, 2))),
+            ("EX3".to_string(), format!("({}) {} EX2 {} EX1", sub(&mut rng, 1), b_sym(*rng.pick(&ALL_B)), b_sym(*rng.pick(&ALL_B)))),
+        ];
+        match if cyclic_safe { i % 8 } else { 0 } {
+            // self-reference, mutual reference, a cycle behind an operand that is not evaluated
+            5 => xenv[0].1 = format!("EX1 + ({})", sub(&mut rng, 1)),
+            6 => xenv[0].1 = format!("({}) * EX3", sub(&mut rng, 1)),
+            7 => xenv[0].1 = format!("0 && EX1 || ({})", sub(&mut rng, 1)),
+            _ => {}
+        }
+        if cyclic_safe && i % 8 >= 5 {
+            cx.rep.count("expression-env/cyclic");
+        }
+        let which = ["EX1", "EX2", "EX3"][rng.below(3) as usize];
+        let main_t = T::Bin(*rng.pick(&ALL_B), id(which), Box::new(gen_tree(&mut rng, 2)));
         let mut toks = vec![];
         render(&main_t, 0, Paren::Min, &mut rng, &mut toks);
-        do_raw(&mut cx, &toks.join(" "), &env, &xenv, "expression-env");
+        let mut names = vec![];
+        idents_of(&main_t, &mut names);
+        for x in &xenv {
+            idents_of(&ref_parse(&x.1).unwrap(), &mut names);
+        }
+        names.retain(|n| !n.starts_with("EX") || n == "EXPOSURE");
+        let env = gen_env(&mut rng, &fv, &names);
+        do_case_x(&mut cx, &main_t, &toks.join(" "), &env, &xenv, "expression-env");
     }
 
     // ---- 6. malformed stream: mutations of well-formed text (model vs implementation only) --
@@ -1356,7 +1587,7 @@ fn main() {
             let i = rng.below(src.len() as u64) as usize;
             src.remove(i);
         }
-        let env = gen_env(&mut rng, &fv);
+        let env = env_for(&mut rng, &fv, &t);
         do_any(&mut cx, &src, &env, "malformed");
     }
     for src in ["", " ", "1 2", "(1))", "+-1", "-+1", "++1", "1 +", "0x", "9223372036854775808", "0x8000000000000000", "1.2.3", ".", "..", "1e5",
